@@ -74,13 +74,20 @@ def run_bins(prefix, where, cases, profile="debug", target=None):
     return [o if o is not None else "v=missing" for o in out]
 
 
-def run_driver(sexp_path, cases, nproc=8):
+def uni_table_for(sexp_path):
+    """pest's Unicode property tables on the test alphabet (harness/tools uni_table), written once per suite run next to
+    the `.sexp` file; the driver loads it so that `charBy name` answers as pest does (corpus grammar s_uniprops)."""
+    return corpus.ensure_uni_table(sexp_path[:-5] + ".uni" if sexp_path.endswith(".sexp") else sexp_path + ".uni")
+
+
+def run_driver(sexp_path, cases, nproc=8, uni=None):
     chunks = [cases[i::nproc] for i in range(nproc)]
+    uni = uni or uni_table_for(sexp_path)
 
     def run(chunk):
         if not chunk:
             return []
-        p = subprocess.run([DRIVER, sexp_path], input="\n".join(case_line(c) for c in chunk) + "\n",
+        p = subprocess.run([DRIVER, sexp_path, uni], input="\n".join(case_line(c) for c in chunk) + "\n",
                            capture_output=True, text=True)
         return p.stdout.splitlines()
     out = [None] * len(cases)
